@@ -589,6 +589,22 @@ func (ck *Check) emptinessShape(rule string) {
 		zero := cmpFormula(token.EQL, &Term{Kind: "extract", Name: "0", Args: []*Term{call}}, zeroTerm(types.Typ[types.Int]))
 		want := And(okAtom, zero)
 		okv, why, err := Equivalent(got, want)
+		if err == nil && !okv {
+			// NodeEmpty and NodePodsRemaining read the same counting helper: NodePodsRemaining is a
+			// straight-line projection of it, so its two results are spelled out in NodeEmpty's terms
+			pr := a.PodsRemaining
+			if len(pr.Blocks) == 1 {
+				if r, isRet := pr.Blocks[0].Instrs[len(pr.Blocks[0].Instrs)-1].(*ssa.Return); isRet && len(r.Results) == 2 {
+					ch := ctx.childTerm(call)
+					ch.depth = 0
+					found, count := termFormula(ch.Term(r.Results[1])), ch.Term(r.Results[0])
+					want2 := And(found, cmpFormula(token.EQL, count, zeroTerm(types.Typ[types.Int])))
+					if ok2, _, err2 := Equivalent(got, want2); err2 == nil && ok2 {
+						okv, why = true, ""
+					}
+				}
+			}
+		}
 		if err != nil {
 			ck.undecided(rule, "NodeEmpty/body", "", funcID(fn), want.String(), err.Error())
 		} else {
@@ -608,6 +624,18 @@ func (ck *Check) emptinessShape(rule string) {
 		}
 		good := false
 		var why []string
+		// the counter kept in a field of a local result structure — in NodePodsRemaining itself, or in
+		// a helper it projects (count, found) from
+		for _, r := range rets {
+			for _, mc := range ck.structCounterCases(ctx, r) {
+				okM, whyM := ck.memCounter(mc.ctx, mc.count, outerFn)
+				if okM {
+					good = true
+				} else {
+					why = append(why, whyM...)
+				}
+			}
+		}
 		for _, r := range rets {
 			// the "true" return
 			isTrue := false
@@ -775,19 +803,8 @@ func (ck *Check) emptinessShape(rule string) {
 			got = t.String()
 			// the pod list may reach the scan body through a listing helper: look at what it returns
 			cands := []*Term{t}
-			if t.Kind == "extract" && len(t.Args) == 1 && t.Args[0].Kind == "call" && t.Args[0].Fn != nil && ck.P.inRepo(t.Args[0].Fn) && t.Args[0].Fn.Blocks != nil {
-				cands = nil
-				idx := 0
-				fmt.Sscan(t.Name, &idx)
-				ch := sctx.childTerm(t.Args[0])
-				ch.depth = 0
-				for _, b := range t.Args[0].Fn.Blocks {
-					if r, ok := b.Instrs[len(b.Instrs)-1].(*ssa.Return); ok && idx < len(r.Results) {
-						if rt := ch.Term(r.Results[idx]); !(rt.Kind == "const" && rt.Name == "nil") {
-							cands = append(cands, rt)
-						}
-					}
-				}
+			if rc, ok := ck.resultCandidates(sctx, t); ok {
+				cands = rc
 			}
 			all := len(cands) > 0
 			for _, t := range cands {
@@ -887,7 +904,7 @@ func (ck *Check) restartInvariance(rule string) {
 	for i := 0; i < st.NumFields(); i++ {
 		stateField[st.Field(i)] = true
 	}
-	for _, fn := range []*ssa.Function{a.GraceReaper, a.ForceReaper, a.TryDelete} {
+	for _, fn := range append([]*ssa.Function{a.GraceReaper, a.ForceReaper}, a.TryDeleteChain...) {
 		var bad []string
 		for f := range ck.P.readFields[fn] {
 			if stateField[f] && !allowed[f] {
@@ -957,7 +974,29 @@ func checkC10(ck *Check) {
 			continue
 		}
 		n++
-		prot := boolResultFormula(ra.Ctx, a.SafeFromDeletion, []*Term{ra.Elem}, 1)
+		vidx, vfld := verdictOf(a.SafeFromDeletion)
+		var prot *Formula
+		switch {
+		case vfld != nil:
+			// the verdict is a field of the result structure: the atom the reaper tests
+			prot = Atom(&Term{Kind: "opaque", Name: "protected?"})
+			for _, at := range ra.Ctx.PC(ra.Site.Call).Atoms() {
+				if at.Kind == "field" && at.Obj == vfld && len(at.Args) == 1 && at.Args[0].callRoot() == a.SafeFromDeletion {
+					ct := at.Args[0]
+					for ct.Kind != "call" {
+						ct = ct.Args[0]
+					}
+					if len(ct.Args) == 1 && ct.Args[0].Key() == ra.Elem.Key() {
+						prot = Atom(at)
+					}
+				}
+			}
+		case vidx >= 0:
+			prot = boolResultFormula(ra.Ctx, a.SafeFromDeletion, []*Term{ra.Elem}, vidx)
+		default:
+			ck.undecided("C10.R1", ra.Key, ck.P.instrPos(ra.Site.Call), funcID(a.SafeFromDeletion), "the annotation predicate has a boolean verdict (a bool result, or one bool field of a result structure)", "no verdict found")
+			continue
+		}
 		ck.entails("C10.R1", ra.Key, ra.Site.Call, ra.Ctx.PC(ra.Site.Call), Not(prot), "PC ⇒ ¬protected(n) for the appended node n")
 	}
 	ck.floor("C10.R1", "grace reaper append sites", n, 1)
@@ -1032,8 +1071,38 @@ func (ck *Check) protectedPredicate(rule string) {
 	n := paramTerm(fn.Params[0])
 	// lookup form: protected(n) ⇔ n.Annotations["atlassian.com/no-delete"] ≠ "" (a missing key reads
 	// as the empty string, so this is the same predicate as the search loop)
+	vidx, vfld := verdictOf(fn)
+	if vidx < 0 {
+		ck.undecided(rule, "safeFromDeletion/body", ck.P.position(fn.Pos()), funcID(fn), "the annotation predicate has a boolean verdict", "no verdict found")
+		return
+	}
 	if !infoOf(fn).hasLoop {
-		got := ctx.returnFormula(1)
+		got := ctx.returnFormula(vidx)
+		if vfld != nil {
+			var alts []*Formula
+			for _, b := range fn.Blocks {
+				if r, ok := b.Instrs[len(b.Instrs)-1].(*ssa.Return); ok && vidx < len(r.Results) {
+					rt := ctx.Term(r.Results[vidx])
+					var comp *Term
+					if st, _ := rt.Typ.Underlying().(*types.Struct); rt.Kind == "struct" && st != nil {
+						for i := 0; i < st.NumFields() && i < len(rt.Args); i++ {
+							if st.Field(i) == vfld {
+								comp = rt.Args[i]
+							}
+						}
+					}
+					switch {
+					case rt.Kind == "zero":
+						alts = append(alts, And(ctx.BlockPC(b), FFalse))
+					case comp == nil:
+						alts = append(alts, And(ctx.BlockPC(b), Atom(&Term{Kind: "field", Name: vfld.Name(), Obj: vfld, Args: []*Term{rt}})))
+					default:
+						alts = append(alts, And(ctx.BlockPC(b), termFormula(comp)))
+					}
+				}
+			}
+			got = Or(alts...)
+		}
 		var empty *Formula
 		for _, at := range got.Atoms() {
 			if at.Kind == "cmp" && at.Name == "==" && hasConstStr(at, `""`) {
@@ -1058,7 +1127,12 @@ func (ck *Check) protectedPredicate(rule string) {
 		if !ok {
 			continue
 		}
-		k, isConst := r.Results[1].(*ssa.Const)
+		if vfld != nil || vidx >= len(r.Results) {
+			okv = false
+			why = append(why, "a search loop with a structured verdict is not understood")
+			continue
+		}
+		k, isConst := r.Results[vidx].(*ssa.Const)
 		if !isConst {
 			okv = false
 			why = append(why, "non-constant result")
@@ -1120,8 +1194,10 @@ func (ck *Check) protectedPredicate(rule string) {
 			if e[0] != l.Header {
 				// exits from inside: must be the `return true` blocks
 				if r, ok := e[1].Instrs[len(e[1].Instrs)-1].(*ssa.Return); ok {
-					if k, ok := r.Results[1].(*ssa.Const); ok && k.Value.String() == "true" {
-						continue
+					if vidx < len(r.Results) {
+						if k, ok := r.Results[vidx].(*ssa.Const); ok && k.Value.String() == "true" {
+							continue
+						}
 					}
 				}
 				okv = false
@@ -1242,37 +1318,81 @@ func (ck *Check) resolveUp(t *Term, fn *ssa.Function, depth int) ([]*Term, error
 
 // listOrigin classifies a scan-level slice term: "U","T","F","K" (classifier results), "all"
 // (the node lister's result) or "?".
+// resultCandidates: when t is a result of a repo helper called from ctx's function — extract(call),
+// or a field of a result structure — the values the helper can return for it (nil / zero results
+// left out), read in the helper's frame; ok is false when t has no such form or a return is not
+// understood.
+func (ck *Check) resultCandidates(ctx *Ctx, t *Term) ([]*Term, bool) {
+	var callT *Term
+	var fld types.Object
+	idx := 0
+	switch {
+	case t.Kind == "extract" && len(t.Args) == 1 && t.Args[0].Kind == "call":
+		callT = t.Args[0]
+		fmt.Sscan(t.Name, &idx)
+	case t.Kind == "field" && len(t.Args) == 1 && t.Args[0].Kind == "extract" && len(t.Args[0].Args) == 1 && t.Args[0].Args[0].Kind == "call":
+		callT, fld = t.Args[0].Args[0], t.Obj
+		fmt.Sscan(t.Args[0].Name, &idx)
+	case t.Kind == "field" && len(t.Args) == 1 && t.Args[0].Kind == "call":
+		callT, fld = t.Args[0], t.Obj
+	}
+	if callT == nil || callT.Fn == nil || !ck.P.inRepo(callT.Fn) || callT.Fn.Blocks == nil {
+		return nil, false
+	}
+	ch := ctx.childTerm(callT)
+	ch.depth = 0
+	var out []*Term
+	for _, b := range callT.Fn.Blocks {
+		r, ok := b.Instrs[len(b.Instrs)-1].(*ssa.Return)
+		if !ok || idx >= len(r.Results) {
+			continue
+		}
+		rt := ch.Term(r.Results[idx])
+		if rt.Kind == "zero" || (rt.Kind == "const" && rt.Name == "nil") {
+			continue
+		}
+		if fld != nil {
+			if rt.Kind != "struct" {
+				return nil, false
+			}
+			st, _ := rt.Typ.Underlying().(*types.Struct)
+			var comp *Term
+			for i := 0; st != nil && i < st.NumFields() && i < len(rt.Args); i++ {
+				if st.Field(i) == fld {
+					comp = rt.Args[i]
+				}
+			}
+			if comp == nil || comp.Kind == "zero" || (comp.Kind == "const" && comp.Name == "nil") {
+				continue
+			}
+			rt = comp
+		}
+		out = append(out, rt)
+	}
+	return out, true
+}
+
 func (ck *Check) listOrigin(t *Term) string {
 	fcall, _, ok := ck.scanLists()
 	if !ok {
 		return "?"
 	}
-	// a list handed out by a helper of the scan body (e.g. one that lists pods and nodes): every
-	// non-nil value the helper can return for that result must have the same origin
-	if t.Kind == "extract" && len(t.Args) == 1 && t.Args[0].Kind == "call" && t.Args[0].Fn != nil && ck.P.inRepo(t.Args[0].Fn) && t.Args[0].Fn.Blocks != nil && t.Args[0].Fn != ck.A.Filter {
-		h := t.Args[0].Fn
-		idx := 0
-		fmt.Sscan(t.Name, &idx)
-		ch := ck.P.NewCtx(ck.A.Scan).childTerm(t.Args[0])
-		ch.depth = 0
-		origin := ""
-		for _, b := range h.Blocks {
-			r, ok := b.Instrs[len(b.Instrs)-1].(*ssa.Return)
-			if !ok || idx >= len(r.Results) {
-				continue
+	// a list handed out by a helper of the scan body (e.g. one that lists pods and nodes), directly
+	// or as a field of a result structure: every non-nil value the helper can return for it must
+	// have the same origin
+	if t.callRoot() != ck.A.Filter {
+		if cands, ok := ck.resultCandidates(ck.P.NewCtx(ck.A.Scan), t); ok {
+			origin := ""
+			for _, rt := range cands {
+				o := ck.listOrigin(rt)
+				if origin != "" && o != origin {
+					return "?"
+				}
+				origin = o
 			}
-			rt := ch.Term(r.Results[idx])
-			if rt.Kind == "const" && rt.Name == "nil" {
-				continue
+			if origin != "" {
+				return origin
 			}
-			o := ck.listOrigin(rt)
-			if origin != "" && o != origin {
-				return "?"
-			}
-			origin = o
-		}
-		if origin != "" {
-			return origin
 		}
 	}
 	ctx := ck.P.NewCtx(ck.A.Scan)
@@ -1711,4 +1831,197 @@ func (ck *Check) dryGuardAtCallers(s Site) bool {
 		}
 	}
 	return n > 0
+}
+
+// callRoot: the function whose call t is a result (or a field of a result) of.
+func (t *Term) callRoot() *ssa.Function {
+	for x := t; x != nil; {
+		switch {
+		case x.Kind == "call":
+			return x.Fn
+		case (x.Kind == "extract" || x.Kind == "field") && len(x.Args) == 1:
+			x = x.Args[0]
+		default:
+			return nil
+		}
+	}
+	return nil
+}
+
+// verdictOf: where a predicate function hands out its boolean verdict — the index of its bool
+// result, or (for a single structure result) index 0 and the structure's only bool field.
+func verdictOf(fn *ssa.Function) (int, *types.Var) {
+	res := fn.Signature.Results()
+	idx := -1
+	for i := 0; i < res.Len(); i++ {
+		if isBool(res.At(i).Type()) {
+			if idx >= 0 {
+				return -1, nil
+			}
+			idx = i
+		}
+	}
+	if idx >= 0 {
+		return idx, nil
+	}
+	if res.Len() == 1 {
+		if st, ok := res.At(0).Type().Underlying().(*types.Struct); ok {
+			var f *types.Var
+			for i := 0; i < st.NumFields(); i++ {
+				if isBool(st.Field(i).Type()) {
+					if f != nil {
+						return -1, nil
+					}
+					f = st.Field(i)
+				}
+			}
+			if f != nil {
+				return 0, f
+			}
+		}
+	}
+	return -1, nil
+}
+
+// structCounterCase: a return on which "found" holds whose count is a memory-carried value.
+type structCounterCase struct {
+	ctx   *Ctx
+	count *Term
+}
+
+// structCounterCases: for return r of NodePodsRemaining (results count, found) the cases in which
+// found is true and the count is the value of a field of a local structure: directly, or as the
+// `count` / `found` projections of a structure returned by a repo helper.
+func (ck *Check) structCounterCases(ctx *Ctx, r *ssa.Return) []structCounterCase {
+	if len(r.Results) != 2 {
+		return nil
+	}
+	var out []structCounterCase
+	ct, ft := ctx.Term(r.Results[0]), ctx.Term(r.Results[1])
+	if ct.Kind == "memphi" {
+		if imp, _, _ := Entails(ctx.PC(r), termFormula(ft)); imp {
+			out = append(out, structCounterCase{ctx, ct})
+		}
+		return out
+	}
+	// projections of one helper call
+	if !(ct.Kind == "field" && ft.Kind == "field" && len(ct.Args) == 1 && len(ft.Args) == 1 && ct.Args[0].Key() == ft.Args[0].Key()) {
+		return nil
+	}
+	base := ct.Args[0]
+	if base.Kind != "call" || base.Fn == nil || !ck.P.inRepo(base.Fn) || base.Fn.Blocks == nil {
+		return nil
+	}
+	ch := ctx.childTerm(base)
+	ch.depth = 0
+	for _, b := range base.Fn.Blocks {
+		hr, ok := b.Instrs[len(b.Instrs)-1].(*ssa.Return)
+		if !ok || len(hr.Results) != 1 {
+			continue
+		}
+		rt := ch.Term(hr.Results[0])
+		st, _ := rt.Typ.Underlying().(*types.Struct)
+		if rt.Kind != "struct" || st == nil {
+			continue
+		}
+		var cc, fc *Term
+		for i := 0; i < st.NumFields() && i < len(rt.Args); i++ {
+			if st.Field(i) == ct.Obj {
+				cc = rt.Args[i]
+			}
+			if st.Field(i) == ft.Obj {
+				fc = rt.Args[i]
+			}
+		}
+		if cc == nil || fc == nil || cc.Kind != "memphi" {
+			continue
+		}
+		if imp, _, _ := Entails(ch.PC(hr), termFormula(fc)); imp {
+			out = append(out, structCounterCase{ch, cc})
+		}
+	}
+	return out
+}
+
+// memCounter: t, a loop-carried value of a local's field, is a counter of the non-DaemonSet pods
+// filed under node.Name: 0 before the loop, +1 on exactly the iterations with ¬PodIsDaemonSet(pod),
+// unchanged otherwise, over a full range of nodeInfo.Pods() of the map entry for the node's name.
+func (ck *Check) memCounter(ctx *Ctx, t *Term, outerFn *ssa.Function) (bool, []string) {
+	ms, ok := memphiInfo[t.Key()]
+	if !ok {
+		return false, []string{"count is not a loop-carried counter"}
+	}
+	c := ms.c
+	fn := c.fn
+	hdr := fn.Blocks[ms.blk]
+	var l *Loop
+	for _, x := range loopsOf(fn) {
+		if x.Header == hdr {
+			l = x
+		}
+	}
+	if l == nil || !l.FullTraversal() {
+		return false, []string{"the pod loop is not a full range traversal (early exit)"}
+	}
+	var why []string
+	inc := FFalse
+	incs := 0
+	for _, p := range hdr.Preds {
+		v := c.memAt(ms.a, ms.path, p.Index, len(p.Instrs), ms.typ)
+		if !l.Blocks[p] {
+			if k, isK := v.isConstInt(); !(isK && k == 0) && v.Kind != "zero" {
+				why = append(why, "counter does not start at 0")
+			}
+			continue
+		}
+		gs, ts := []*Formula{c.edgePC(p, hdr)}, []*Term{v}
+		if v.Kind == "memphi" && v.Key() != t.Key() {
+			ig, it := memCases(v, 0)
+			gs, ts = nil, nil
+			for i := range it {
+				gs = append(gs, And(c.edgePC(p, hdr), ig[i]))
+				ts = append(ts, it[i])
+			}
+		}
+		for i, tv := range ts {
+			if tv.Key() == t.Key() {
+				continue
+			}
+			isInc := false
+			if tv.Kind == "binop" && tv.Name == "+" && len(tv.Args) == 2 {
+				for j := 0; j < 2; j++ {
+					if k, isK := tv.Args[j].isConstInt(); isK && k == 1 && tv.Args[1-j].Key() == t.Key() {
+						isInc = true
+					}
+				}
+			}
+			if !isInc {
+				why = append(why, "counter updated other than by +1: "+tv.String())
+				continue
+			}
+			incs++
+			inc = Or(inc, gs[i])
+		}
+	}
+	ds := ck.daemonSetOfElem(c, l)
+	if ds == nil {
+		why = append(why, "increment is not guarded by a PodIsDaemonSet test on the loop element")
+	} else {
+		body := And(c.BlockPC(hdr), c.edgeCond(hdr, hdr.Succs[0]))
+		if eq, _, _ := Equivalent(inc, And(body, Not(ds))); !eq || incs == 0 {
+			why = append(why, "increment condition is not exactly ¬PodIsDaemonSet(pod): "+inc.String())
+		}
+	}
+	over := c.Term(l.Over)
+	okOver := over.Kind == "call" && strings.HasSuffix(over.Name, "NodeInfo).Pods")
+	if okOver {
+		recv := over.Args[0]
+		okOver = recv.Kind == "extract" && recv.Name == "0" && recv.Args[0].Kind == "lookup" &&
+			recv.Args[0].Args[0].Key() == paramTerm(outerFn.Params[1]).Key() &&
+			recv.Args[0].Args[1].Key() == ck.nodeField(paramTerm(outerFn.Params[0]), "ObjectMeta", "Name").Key()
+	}
+	if !okOver {
+		why = append(why, "loop does not range over the pods filed under node.Name: "+over.String())
+	}
+	return len(why) == 0, why
 }
